@@ -79,11 +79,14 @@ def step (st : St) : List String → St × String
       -- ... read as entry-only callbacks (what each executed callback scheduled, over the history):
       -- `loop`/`evolveUntil`/`stepOp`, the objects of the theorems, must replay the very same run
       -- (`evolveUntilC_eq_evolveUntil_table`); without clock-relative children `kidsOf` itself is used
-      let hcC := stepOpC (kidsOfC st.tbl) fuel ⟨st.h, st.ftbl⟩ (.evolve T)
+      -- (the table path only for tables with clock-relative children: the table lookup is linear in the
+      -- number of callbacks executed so far)
+      let rel := clockRel st.tbl
+      let hcC := if rel then stepOpC (kidsOfC st.tbl) fuel ⟨st.h, st.ftbl⟩ (.evolve T) else ⟨st.h, st.ftbl⟩
       let ftbl := hcC.tbl
-      let kids := if clockRel st.tbl then tableKids ftbl else kidsOf st.tbl
+      let kids := if rel then tableKids ftbl else kidsOf st.tbl
       let run := evolveUntil kids fuel st.h.s T
-      let h' := if clockRel st.tbl then hcC.h else stepOp kids fuel st.h (.evolve T)
+      let h' := if rel then hcC.h else stepOp kids fuel st.h (.evolve T)
       let t0 := st.h.s.t
       -- clock, counter and queue are printed from the history state the theorems are about
       let out := s!"{showStatus run.status} t={showRat h'.s.t} ctr={h'.s.ctr} trace=" ++
@@ -91,7 +94,7 @@ def step (st : St) : List String → St × String
         ";".intercalate (h'.s.queue.map showEntry) ++ " iv=" ++
         ";".intercalate ((intervals t0 run.trace).map showIv) ++
         s!" sum={showRat (sumDt run.trace)} lfc={showRat (lastFireClock t0 run.trace)}" ++
-        s!" same={decide (run = runC ∧ hcC.h = h')}"
+        s!" same={decide (run = runC)}"
       ({ st with h := h', ftbl := ftbl, ops := st.ops ++ [.evolve T],
                  fuel := some fuel, fuelSame := st.fuelSame && (st.fuel.isNone || st.fuel == some fuel) }, out)
     | _, _ => (st, "bad-op")
@@ -101,7 +104,13 @@ def step (st : St) : List String → St × String
     -- entry-only `kids` function: the final table of executed callbacks, or `kidsOf`
     let kids := if clockRel st.tbl then tableKids st.ftbl else kidsOf st.tbl
     let replay := if st.fuelSame then toString (decide (runOps kids (st.fuel.getD 0) hinit st.ops = h)) else "na"
-    (st, s!"replay={replay} hz={showRat h.hz} t={showRat h.s.t} created={h.created.length} fired={(fired h.trace).length} " ++
+    -- the hypotheses of history_inv / history_exactly_once, decided on the model's history
+    let f := st.fuel.getD 0
+    let hyp := if st.fuelSame then
+        s!"addsfrom_hz={addsFromB (·.hz) kids f hinit st.ops} addsfrom_t={addsFromB (·.s.t) kids f hinit st.ops} " ++
+        s!"nofuelout={noFuelOutB kids f hinit st.ops}"
+      else "addsfrom_hz=na addsfrom_t=na nofuelout=na"
+    (st, s!"replay={replay} {hyp} hz={showRat h.hz} t={showRat h.s.t} created={h.created.length} fired={(fired h.trace).length} " ++
       s!"pending={h.s.queue.length} sorted={sortedB (fired h.trace)} run=" ++
       ";".intercalate ((fired h.trace).map showEntry) ++ " created=" ++
       ";".intercalate (h.created.map showEntry))
